@@ -6,18 +6,31 @@ use aquatic_common::{
 use arc_swap::ArcSwap;
 use common::State;
 use glommio::{channels::channel_mesh::MeshBuilder, prelude::*};
+#[cfg(not(aquatic_verif))]
 use signal_hook::{consts::SIGUSR1, iterator::Signals};
+#[cfg(aquatic_verif)]
+use signal_hook::consts::SIGUSR1;
+#[cfg(aquatic_verif)]
+use aquatic_verif_rt::signal::Signals;
+#[cfg(not(aquatic_verif))]
 use std::{
     sync::Arc,
     thread::{sleep, Builder, JoinHandle},
     time::Duration,
 };
+#[cfg(aquatic_verif)]
+use std::{sync::Arc, time::Duration};
+#[cfg(aquatic_verif)]
+use aquatic_verif_rt::thread::{sleep, Builder, JoinHandle};
 
 use crate::config::Config;
 
 mod common;
 pub mod config;
 mod workers;
+
+#[cfg(aquatic_verif)]
+pub use workers::swarm::verif_export;
 
 pub const APP_NAME: &str = "aquatic_http: HTTP BitTorrent tracker";
 pub const APP_VERSION: &str = env!("CARGO_PKG_VERSION");
